@@ -15,7 +15,7 @@ frame decides the rest.
 import itertools
 import sys
 
-sys.path.insert(0, "/repo")
+sys.path.insert(0, __import__("os").environ.get("VERIF_REPO", "/repo"))
 from collections import OrderedDict  # noqa: E402
 
 import numpy as np  # noqa: E402
